@@ -91,7 +91,7 @@ func exhaustiveArrays(rname string) func(r *engine.Rec) {
 	return func(r *engine.Rec) {
 		maxLen := 9
 		if r.Tier == "thorough" {
-			maxLen = 11
+			maxLen = 12
 		}
 		ranker := rankers[rname]
 		sorter := age.Sorter[T]().MakeWithRanker(ranker)
